@@ -181,7 +181,7 @@ def check_node_line(files, line, mnemonics):
                 return f"node {kind}: mnemonic token located on {sl!r}"
         elif key == "name":
             nm = unhx(v)
-            if sl != nm and sl.rstrip(":") != nm and nm != "__return__" and sl.lower() not in mnemonics:
+            if sl != nm and sl.rstrip(":") != nm and nm != "<return>" and sl.lower() not in mnemonics:
                 return f"node {kind}: label {nm!r} located on {sl!r}"
         if oloc["file"] == loc["file"]:
             last_end = max(last_end, oloc["er"])
